@@ -64,10 +64,16 @@ def perm_matrix(order_b, order_a):
 FORMATS = ["dict", "list", "symkeys", "sympy_matrix", "blockseries"]
 
 
-def base_instance(rng, *, vtype=None, k=None, N=None, hermitian_mode=True, fdkinds=None, d=None):
+def base_instance(rng, *, vtype=None, k=None, N=None, hermitian_mode=True, fdkinds=None, d=None, corner=None):
     vtype = vtype or rng.choice(["sympy", "sympy", "numpy", "numpy_complex", "sparse"])
-    for _ in range(40):
+    for _ in range(60):
         try:
+            if corner == "degenerate_fd":
+                sizes = rng.choice([[3, 1], [1, 3], [3, 2], [4, 1], [2, 3]])
+                inst = hermitian.gen_instance(rng, vtype=vtype, k=k, N=N, d=sum(sizes), sizes=sizes,
+                                              hermitian=hermitian_mode, corner=corner, shuffle=False)
+                inst["format"] = rng.choice(FORMATS)
+                return inst
             inst = hermitian.gen_instance(rng, vtype=vtype, k=k, N=N, d=d or rng.choice([2, 3, 3, 4]),
                                           fdkind=rng.choice(fdkinds) if fdkinds else None,
                                           hermitian=hermitian_mode)
@@ -170,7 +176,7 @@ def pair_vanishing(rng):
 
 # ---- C15 ----------------------------------------------------------------------
 def pair_relabel(rng):
-    A = base_instance(rng, d=rng.choice([3, 4, 5]))
+    A = base_instance(rng, d=rng.choice([3, 4, 5]), corner="degenerate_fd" if rng.random() < 0.4 else None)
     nb = len(A["sizes"])
     if nb < 2:
         raise Regenerate("one block")
@@ -189,7 +195,8 @@ def pair_relabel(rng):
 
 
 def pair_basisperm(rng):
-    A = base_instance(rng, d=rng.choice([3, 4, 5]))
+    A = base_instance(rng, d=rng.choice([3, 4, 5]), corner="degenerate_fd" if rng.random() < 0.6 else None,
+                      vtype=rng.choice(["numpy", "numpy_complex", "sparse", "sympy"]))
     d = A["d"]
     pi = list(range(d))
     rng.shuffle(pi)  # new state j is old state pi[j]
